@@ -93,6 +93,7 @@ Proof.
   - break_step E; apply (Inv2_frame tr s); auto.
   - break_step E; apply (Inv2_frame tr s); auto.
   - discriminate E.
+  - discriminate E.
 Qed.
 
 Lemma Inv2_run cap tr : forall s, run cap init tr = Some s -> Inv2 tr s.
@@ -210,5 +211,5 @@ Proof.
   intros H. unfold spec_code.
   rewrite (reads_exclusive_accepted cap tr s H), (writes_exclusive_accepted cap tr s H), (write_order_prefix cap tr s H),
     (drops_ok_accepted cap tr s H), (notify_ok_accepted cap tr s H), (results_ok_accepted cap tr s H),
-    (told_ok_accepted cap tr s H). reflexivity.
+    (told_ok_accepted cap tr s H), (all_queued_accepted cap tr s H). reflexivity.
 Qed.
